@@ -1038,6 +1038,13 @@ def check_C05(ctx):
                         bytes(rng.choice(b"ab%") for _ in range(rng.choice([0, 1, 2, 3])))])
         n = rng.choice(STR_NAMES)
         cases.append((f"str {n} {hexs(a)} {hexs(e)}", str_oracle(n, a, e)))
+    # long strings that agree for a long way: the difference (or the end of one of them) comes late
+    for L in (255, 256, 1023, 1024, 1025, 2048, 4097):
+        a = bytes(rng.choice(b"abc") for _ in range(L))
+        for at in sorted({0, L // 2, L - 2, L - 1}):
+            for e in (a[:at] + b"X" + a[at + 1:], a[:at], a + b"tail", a):
+                for n in rng.sample(STR_NAMES, min(len(STR_NAMES), 5)):
+                    cases.append((f"str {n} {hexs(a)} {hexs(e)}", str_oracle(n, a, e)))
     # memory: all sizes 1..16 with a difference at every offset (and none), NULL actual, both forms
     for size in range(1, sizes(ctx, 17, 33)):
         base = bytes(rng.randrange(256) for _ in range(size + 4))
